@@ -142,10 +142,17 @@ static Plan gen_c06(uint64_t seed, const std::string &tier) {
         std::string m = "Mk" + std::to_string(i) + "q7Z9w";
         ExecOp e; e.api = (int)r.below(2); e.err = r.chance(1, 2) ? 2 : 13; e.ret = -1;
         e.path = "/p/" + m + "_" + gen_token(r, 0, 20, 0);
-        int shape = (int)r.below(8);
+        int shape = (int)r.below(9);
         if (shape == 0) e.argv_null = true;
         else if (shape == 1) {}
         else if (shape == 2) { e.argv0_null_hidden = true; e.argv = {m + "hid"}; }
+        else if (shape == 8) {   // very many entries that are mostly empty strings: the joined text stays around the limit while the count is far above limit/2
+            long cnt = (long)r.range(dsmax / 4, dsmax * 3 / 2); if (cnt > 20000) cnt = 20000;
+            int empties = (int)r.below(3);
+            e.argv.push_back(r.chance(1, 2) ? m : "");
+            for (long k = 0; k < cnt; k++) e.argv.push_back((empties == 0 || !r.chance(1, empties == 1 ? 20 : 4)) ? "" : std::string(1, (char)('a' + r.below(26))));
+            e.argv.push_back(m + "last");
+        }
         else {
             size_t cnt = shape == 3 ? (size_t)r.range(300, 3000) : (size_t)r.range(1, 6);
             bool lng = shape == 4 || shape == 5;
